@@ -73,6 +73,26 @@ def is_identity_call(ext):
     return False
 
 
+def const_eval(t):
+    """Numeric value of a term built from constants and + - only (accumulators keep their structure as terms)."""
+    if not isinstance(t, tuple) or not t:
+        return None
+    if t[0] == 'c' and isinstance(t[1], (int, bool)):
+        return int(t[1]) if not isinstance(t[1], bool) else t[1]
+    if t[0] == 'cast':
+        return const_eval(t[1])
+    if t[0] == 'bin' and t[1] in ('Add', 'Sub', 'saturating_add', 'saturating_sub', 'Mul'):
+        a, b = const_eval(t[2]), const_eval(t[3])
+        if a is None or b is None or isinstance(a, bool) or isinstance(b, bool):
+            return None
+        if t[1] in ('Add', 'saturating_add'):
+            return a + b
+        if t[1] == 'Mul':
+            return a * b
+        return max(a - b, 0) if t[1] == 'saturating_sub' else a - b
+    return None
+
+
 def mk_cmp(op, a, b):
     """Canonical comparison term: only lt / le / eq / ne; gt(a,b)=lt(b,a), ge(a,b)=le(b,a)."""
     op = op.lower()
@@ -112,14 +132,15 @@ NONE = ('aggr', OPTION, 'None', ())
 
 
 class Path:
-    __slots__ = ('conds', 'ret', 'events', 'diverged', 'known')
+    __slots__ = ('conds', 'ret', 'events', 'diverged', 'known', 'env')
 
-    def __init__(self, conds, ret, events, diverged, known):
+    def __init__(self, conds, ret, events, diverged, known, env=None):
         self.conds = conds
         self.ret = ret
         self.events = events
         self.diverged = diverged
         self.known = known
+        self.env = env or {}
 
 
 class State:
@@ -339,11 +360,12 @@ class SymEx:
             c = self.operand(b, st, rv['b'])
             op = rv['op']
             if op in ('Lt', 'Le', 'Gt', 'Ge', 'Eq', 'Ne'):
-                if a[0] == 'c' and c[0] == 'c' and isinstance(a[1], (int, bool)) and isinstance(c[1], (int, bool)):
+                av, cv = const_eval(a), const_eval(c)
+                if av is not None and cv is not None:
                     import operator
                     f = {'Lt': operator.lt, 'Le': operator.le, 'Gt': operator.gt, 'Ge': operator.ge,
                          'Eq': operator.eq, 'Ne': operator.ne}[op]
-                    return ('c', f(a[1], c[1]))
+                    return ('c', f(av, cv))
                 return mk_cmp(op, a, c)
             base = op[:-len('WithOverflow')] if op.endswith('WithOverflow') else op.replace('Unchecked', '')
             if a[0] == 'c' and c[0] == 'c' and isinstance(a[1], int) and isinstance(c[1], int) and not isinstance(a[1], bool) and not isinstance(c[1], bool):
@@ -474,7 +496,7 @@ class SymEx:
                     cont(st, rv)
                 else:
                     self.npaths += 1
-                    out.append(Path(st.conds, rv, st.events, False, st.known))
+                    out.append(Path(st.conds, rv, st.events, False, st.known, dict(st.env)))
                 return
             if k in ('unreachable', 'resume', 'abort'):
                 if cont is None:
